@@ -57,7 +57,17 @@ def compare_with_start(rec, start_sh, cur_sh, unresolved, hints, rng):
     return ("same" if r["common"] >= (3 if names else 1) else "skip"), ""
 
 
-def run_episode(rec, root, rng, rules, max_steps, policy, text, hints, steps_script=None):
+# products whose multiplier contains like terms / foldable constants / a product of powers: after
+# distributing, everything inside the multiplier exists TWICE with the same ids, and the two copies
+# can then be rewritten differently
+DUP_TEMPLATES = [
+    "({t} + {t}) * (({w} + {c}{v}) + {c}{v})", "(({w} + {c}{v}) + {c}{v}) * ({t} + {t})", "({v} + {k}) * (({k} + {c}{w}) + {c}{w})",
+    "({t} + {k}) * ({c}{v}{e} * {c}{v}{e})", "({k} + {v}) * (({k} + {k}) + {w})", "({c}{v} + {c}{v}) * ({w} + {k})", "(({w} + {v}) + {v}) * ({v} + {k})",
+    "({t} + {t}) * (({c}{v} + {w}) + ({c}{v} + {t}))", "({w} + {k}) * ({v} * {v} + {v})", "({t} + {t}) * ({k}{v} * {w} + {k}{v} * {w})",
+]
+
+
+def run_episode(rec, root, rng, rules, max_steps, policy, text, hints, steps_script=None, rules_first=None):
     start_sh = S.shadow(root)
     ep = D.Episode(root, rng, policy=policy)
     folded = False
@@ -82,7 +92,9 @@ def run_episode(rec, root, rng, rules, max_steps, policy, text, hints, steps_scr
                 ep.root = new_root
                 ep.states.append((new_root, S.idshadow(new_root)))
         else:
-            r = ep.next(rec, rules)
+            r = ep.next(rec, rules_first if (i == 0 and rules_first) else rules)
+            if r is None and i == 0 and rules_first:
+                r = ep.next(rec, rules)
         if r is None:
             break
         if r is False:
@@ -130,6 +142,24 @@ def run(rec, cfg):
     rng = cfg.rng("c09")
     rules = MR.rule_instances()
     n = cfg.scale(75, 20000)
+    # directed episodes: distribute first, then a handful of steps among the rules that act inside
+    # the two copies of the multiplier (regroup / swap / factor / fold / multiply variables)
+    from ..workloads import exprs as WE
+
+    inner = [(l, r) for l, r in rules if l in ("AG", "CS", "DF", "DF:c", "CA", "VM")]
+    first = [(l, r) for l, r in rules if l == "DM"]
+    for i in range(cfg.scale(90, 6000)):
+        if cfg.out_of_time():
+            break
+        text = WE.Filler(rng).fill(rng.choice(DUP_TEMPLATES))
+        root = RC.parse_start(text)
+        if root is None:
+            continue
+        ep, status = run_episode(rec, root, rng, inner, rng.randint(4, 12), "balanced", text, [], rules_first=first)
+        rec.arm("episodes:duplicate-divergence")
+        rec.arm("episodes:end:" + status)
+        if len(ep.steps) >= 3:
+            rec.nontrivial(("episode", text, tuple(ep.steps)))
     for src, text, hints in RC.start_texts(cfg, rng, n, equations=0.25):
         if cfg.out_of_time():
             rec.truncated = True
